@@ -11,6 +11,9 @@
  *   main                  E  - every thread is started on a context that satisfies lltdLoop's precondition (PRE_lltdLoop at pthread_create),
  *                              with fillInterfaceDetails and the constructors replaced by their proved contracts
  *
+ * With -DV_SYSTEMD the same harness is built around os/linux/daemon/linux-main.c (the systemd / NetworkManager variant, the
+ * default `make` target): its fillInterfaceDetails and lltdLoop are proved against the same contracts.
+ *
  * The file under proof is included unmodified.  Two names are redirected by the preprocessor, stated exactly: `main` (to
  * lltd_embedded_main, the harness owns the entry point) and the variadic `ioctl` (to a three-argument model).  libc / kernel
  * functions are modelled below (trusted: environment model E1 in the evidence). */
@@ -94,12 +97,22 @@ void *realloc(void *old, size_t n) {
 }
 /* console logging: /dev/console cannot be opened, messages go to stderr (their text is not observed) */
 FILE *fopen(const char *p, const char *m) { (void)p; (void)m; return (FILE *)0; }
+#ifdef V_SYSTEMD
+#include <stdarg.h>
+int sd_journal_print_with_location(int priority, const char *file, const char *line, const char *func, const char *format, ...) { (void)priority; (void)file; (void)line; (void)func; (void)format; return 0; }
+#endif
 FILE *fopen64(const char *p, const char *m) { (void)p; (void)m; return (FILE *)0; }
 #include "v_nocheck_pop.h"
 
 #define ioctl v_ioctl
 #define main lltd_embedded_main
+#ifdef V_SYSTEMD
+#include "os/linux/daemon/linux-main.c"
+#define V_CTX_T linux_interface_ctx_t
+#else
 #include "os/linux/daemon/linux-embedded-main.c"
+#define V_CTX_T embedded_interface_ctx_t
+#endif
 #undef main
 #undef ioctl
 
@@ -111,7 +124,7 @@ FILE *fopen64(const char *p, const char *m) { (void)p; (void)m; return (FILE *)0
 #define PRE_frame_linux(frame, ifc)   (V_RW_OK((frame), ((const network_interface_t *)(ifc))->MTU))
 #define RXBUF_EXACT(ifc)  ((ifc)->recvBuffer != NULL && __CPROVER_POINTER_OFFSET((ifc)->recvBuffer) == 0 && \
                            __CPROVER_OBJECT_SIZE((ifc)->recvBuffer) == (ifc)->MTU && V_RW_OK((ifc)->recvBuffer, (ifc)->MTU))
-#define PRE_lltdLoop(c)   (V_RW_OK((c), sizeof(embedded_interface_ctx_t)) && (c)->iface.MTU >= 68u && RXBUF_EXACT(&(c)->iface) && \
+#define PRE_lltdLoop(c)   (V_RW_OK((c), sizeof(V_CTX_T)) && (c)->iface.MTU >= 68u && RXBUF_EXACT(&(c)->iface) && \
                            (c)->mapping != NULL && PRE_switch((c)->mapping) && (c)->session != NULL && PRE_switch((c)->session))
 
 /* core entry point, daemon side: the precondition is the one the core proofs rely on */
@@ -132,12 +145,12 @@ __CPROVER_ensures(!__CPROVER_return_value || g_lenv.hw_rc != 0 || v_mac_eq(iface
 ;
 
 static void *lltdLoop(void *data)
-__CPROVER_requires(PRE_lltdLoop((embedded_interface_ctx_t *)data))
+__CPROVER_requires(PRE_lltdLoop((V_CTX_T *)data))
 __CPROVER_assigns(exitFlag, g_rx_calls, g_led)
-__CPROVER_assigns(__CPROVER_object_whole(((embedded_interface_ctx_t *)data)->iface.recvBuffer))
-__CPROVER_assigns(((embedded_interface_ctx_t *)data)->mapping->current_state, ((embedded_interface_ctx_t *)data)->mapping->last_ts)
-__CPROVER_assigns(((embedded_interface_ctx_t *)data)->session->current_state, ((embedded_interface_ctx_t *)data)->session->last_ts)
-__CPROVER_ensures(PRE_lltdLoop((embedded_interface_ctx_t *)data)) /*@C01.daemon-loop-preserves*/
+__CPROVER_assigns(__CPROVER_object_whole(((V_CTX_T *)data)->iface.recvBuffer))
+__CPROVER_assigns(((V_CTX_T *)data)->mapping->current_state, ((V_CTX_T *)data)->mapping->last_ts)
+__CPROVER_assigns(((V_CTX_T *)data)->session->current_state, ((V_CTX_T *)data)->session->last_ts)
+__CPROVER_ensures(PRE_lltdLoop((V_CTX_T *)data)) /*@C01.daemon-loop-preserves*/
 ;
 
 /* kernel: delivers at most len bytes into buf; obligation: buf really holds len bytes */
@@ -157,7 +170,7 @@ int pthread_create(pthread_t *t, const pthread_attr_t *at, void *(*fn)(void *), 
     (void)t; (void)at;
     V_REQUIRE("C17.daemon-thread-routine: every interface thread runs lltdLoop", fn == lltdLoop);
     V_REQUIRE("C18.daemon-thread-context: the context handed to the receive thread satisfies lltdLoop's precondition (MTU-sized buffer, both automata present and closed)",
-              PRE_lltdLoop((embedded_interface_ctx_t *)arg));
+              PRE_lltdLoop((V_CTX_T *)arg));
     g_threads++;
     return 0;
 }
@@ -185,7 +198,7 @@ void h_linux_loop(void) {
     V_ENV(in.cfg);
     g_cfg.alloc_fail_mask = 0;
     g_lenv = in.env; V_ASSUME(V_LENV_OK());
-    embedded_interface_ctx_t *ctx = (embedded_interface_ctx_t *)malloc(sizeof(*ctx)); V_ASSUME(ctx != NULL);
+    V_CTX_T *ctx = (V_CTX_T *)malloc(sizeof(*ctx)); V_ASSUME(ctx != NULL);
     ctx->iface.MTU = (uint32_t)g_lenv.mtu;
     ctx->iface.recvBuffer = malloc(ctx->iface.MTU); V_ASSUME(ctx->iface.recvBuffer != NULL);
     ctx->mapping = (automata *)malloc(sizeof(automata)); ctx->session = (automata *)malloc(sizeof(automata));
